@@ -484,6 +484,10 @@ class EvolvableNetwork(EvolvableModule, metaclass=NetworkMeta):
         elif is_image_space(self.observation_space):
             assert_correct_cnn_net_config(net_config)
 
+            # Same output activation as a rebuild from the encoder's own config gets
+            if net_config.get("output_activation") is None:
+                net_config["output_activation"] = net_config.get("activation", "ReLU")
+
             encoder = EvolvableCNN(
                 input_shape=self.observation_space.shape,
                 num_outputs=self.latent_dim,
@@ -519,6 +523,13 @@ class EvolvableNetwork(EvolvableModule, metaclass=NetworkMeta):
                 # 2. Disable output_vanish
                 net_config["output_layernorm"] = net_config.get("layer_norm", True)
                 net_config["output_vanish"] = False
+
+                # 3. Use the same output activation as a rebuild from the encoder's
+                # own config gets (its activation, "ReLU" when none was configured)
+                if net_config.get("output_activation") is None:
+                    net_config["output_activation"] = net_config.get(
+                        "activation", "ReLU"
+                    )
 
             encoder = encoder_mlp_cls(
                 num_inputs=spaces.flatdim(self.observation_space),
